@@ -36,6 +36,7 @@ structure Mon where
   lost : List (Nat × String) := []       -- acknowledged keys seen unprotected, with the class decided then
   pausedKeys : List Nat := []            -- keys whose upload is parked before Manager.Add (flag already set)
   flagLost : List Nat := []              -- parked keys whose blob's flag was cleared by another namespace's task meanwhile
+  tblKeys : List String := []            -- impl: keys of the task table after the previous op
 
 structure St where
   m : State := {}
@@ -148,7 +149,21 @@ def violations (mon : Mon) (args impl : List String) (final : Bool) : List Strin
         if b ∈ mon.tainted then "forced-cleanup-during-commit"
         else if shared b then "persist-flag-shared-across-namespaces" else "acked-blob-unprotected"
       | _ => "acked-blob-unprotected"
-  mon.acked.foldl (fun (acc : List String × Mon) k =>
+  -- a task row leaves the table only through a successful execution of that very task (namespace, blob)
+  let gone := mon.tblKeys.filter (· ∉ tbl)
+  let pfGone := gone.filterMap fun kt =>
+    match args with
+    | ["exec", kt'] =>
+      if kt' = kt ∧ res = "ok" then none
+      else match key? kt, key? kt' with
+        | some k, some k' =>
+          if k ≠ k' ∧ dig k = dig k' then
+            some s!"side=impl key=task-removed-by-other-namespace the write-back task {kt} left the table when the task {kt'} of the same blob under another namespace was executed ({res}); backend {inb}"
+          else some s!"side=impl key=task-removed-without-execution the write-back task {kt} left the table in op {args}"
+        | _, _ => some s!"side=impl key=task-removed-without-execution the write-back task {kt} left the table in op {args}"
+    | _ => some s!"side=impl key=task-removed-without-execution the write-back task {kt} left the table in op {args}"
+  let mon := { mon with tblKeys := tbl }
+  let (pfs, mon) := mon.acked.foldl (fun (acc : List String × Mon) k =>
     let (pfs, mon) := acc
     let kt := s!"k{k}"
     let b := dig k
@@ -161,6 +176,7 @@ def violations (mon : Mon) (args impl : List String) (final : Bool) : List Strin
         (if final then "not in its backend after all write-back tasks ran"
          else "neither in its backend nor protected (file, persist flag and task)") ++
         s!": files {files} backend {inb} tasks {tbl}"], mon)) ([], mon)
+  (pfGone ++ pfs, mon)
 
 def step (s : St) (kind : String) (args impl : List String) : Option (St × StepOut) :=
   if kind ≠ "op" then none else
